@@ -71,6 +71,9 @@ type Engine struct {
 	locObj   *Obj
 	strMax   int
 	solverName string
+	splitMax int
+	bounds   map[string]bool
+	optRecs  map[*Obj]*StructV
 }
 
 // Event is a recorded stub side effect (log line, Fail, hook call).
